@@ -30,7 +30,7 @@
      not even with one grid unit of slack: concrete 3-period instance with genuine newsvendor cost tables ([veinott_okb] = true,
      S_1 = 2 < 4 - 1).  [Ex2_lomin]: what is true there (S_t >= 2 = running minimum).
    * [myopic_bracket_nonvacuous], [Ex1_bracket]: a 3-period instance (fixed cost rising, then falling) meeting every hypothesis.
-   FHMyopic_orig.v ties this to Props.C12.myopic_bounds_bracket_statement (refutation as written; corrected version). *)
+   the last block of this file ties this to myopic_bounds_bracket_statement (defined below) (refutation as written; corrected version). *)
 From SV Require Import Base.Qx Alg.FH Alg.FH_proofs.
 
 (* last index j < k with f j = true (0 if none) *)
